@@ -1086,6 +1086,13 @@ bool evaluate_impl(const void *context, const GraphView &graph,
   // per-cycle setup (next_scheduled accumulation / push-source pass). A
   // completed cycle resets the cursor to 0. (A cursor of 0 or the initial
   // invalid sentinel means "fresh".)
+  // A cycle that ended with an exception also leaves the cursor on the failing
+  // node (failed_node() reads it). When the graph is kept and evaluated again
+  // (try_except, map_ children) that is NOT a pause: start the next cycle
+  // fresh, or the nodes ranked before the failing one would be skipped.
+  if (state.evaluation_failed) {
+    state.evaluation_cursor = 0;
+  }
   const bool resuming =
       state.evaluation_cursor != 0 && state.evaluation_cursor != invalid_cursor;
 
